@@ -185,15 +185,6 @@ func (rs *dnsRuleSet) negClass() string {
 	return ""
 }
 
-// dnsAvoidNegMerge un-negates the later rule of such a pair (kept with probability 1/40).
-func dnsAvoidNegMerge(T *verifsim.Tape, rules []dnsRule) {
-	for i := 1; i < len(rules); i++ {
-		if dnsNegMerged(rules[i-1:i+1]) && !T.Chance(1, 40) {
-			rules[i].conds[0].not = false
-		}
-	}
-}
-
 // ---- generation -----------------------------------------------------------
 
 func dnsGenQnameCond(T *verifsim.Tape, names []int) dnsCond {
@@ -299,7 +290,8 @@ func dnsGenRuleSet(T *verifsim.Tape, tags []string, names []int, rich bool, allo
 			rs.respFallback = respOuts[T.Choose(len(respOuts))]
 		}
 	}
-	dnsAvoidNegMerge(T, rs.req)
-	dnsAvoidNegMerge(T, rs.resp)
+	// (neighbouring negated rules used to be merged by the rule optimiser — repaired in
+	// /repo b8028e8; they are generated at their natural rate again, and a regression
+	// would surface as class @negated-neighbours-merged)
 	return rs
 }
